@@ -9,7 +9,13 @@ PID = "C03"
 TECHNIQUE = "Lean 4 theorems by structural induction on the recipe model + exact correspondence of Recipe.scale"
 LEVEL_TEXT = ("Theorems in Lean about the executable model of Recipe.scale / ScaledValueString.scale: the scalable numbers of the result are k times "
               "those of the input, the frame (structure, text, units, proportions) is unchanged, scaling by 1 is the identity and scaling composes "
-              "for exact numbers, validity is preserved - for all recipes and factors; model tied to the code by exact equality of scaled recipes.")
+              "for exact numbers, validity is preserved - for all recipes and factors; model tied to the code by exact equality of scaled recipes. "
+              "Whole pages (C03e): renderDoc_template / renderDoc_canonical - MarkdownRecipe.render(k) is the document's template with every hole (prose value, "
+              "recipe block, header) filled by its value at factor k, for every k (under ChainOK: no placeholder occurs in literal text or in a rendered value, "
+              "decidable and checked per document); page_numbers_scaled (unconditional): the numbers shown on the page at factor k, in reading order, are the "
+              "written numbers each multiplied by k - nothing added, dropped or reordered; page_frame_invariant: the literal HTML and the frames of all values "
+              "and trees are the same at every factor; prose_value_rendered; mul_exact / mul_float; the shown numbers are compared with the real render(k) and "
+              "the real stand-alone page.")
 LEVEL_NOTE = ("Trusted: Lean kernel; the hand-written model as far as correspondence exercises it; Python arithmetic = exact rationals / correctly "
               "rounded doubles (validated bit-exactly per case). Float composition is the bounded theorem scale_twice_close_tree (two scalings vs one: within 6 units roundoff, "
               "from toDouble_err: |toDouble x - x| <= |x| / 2^53 for every rational x; binary64 overflow/subnormals are outside the model); "
@@ -17,7 +23,7 @@ LEVEL_NOTE = ("Trusted: Lean kernel; the hand-written model as far as correspond
               "test sits on the edge of its float tolerance (compile_scale_commute; elab_scale_commute unconditionally; the unconditional statement is "
               "refuted in the kernel, compile_scale_commute_Full_false - a recorded finding; compile_scale_commute_offEdge replaces the hypothesis by a decidable "
               "condition in exact rational arithmetic: no two written quantities differ by the 1e-9 tolerance to within a relative 2^-21); Markdown prose and whole documents are checked by the oracle.")
-LEAN_MODULES = ["RecipeGrid.Props.C03", "RecipeGrid.Props.C03b", "RecipeGrid.Props.C03c", "RecipeGrid.Props.C03d"]
+LEAN_MODULES = ["RecipeGrid.Props.C03", "RecipeGrid.Props.C03b", "RecipeGrid.Props.C03c", "RecipeGrid.Props.C03d", "RecipeGrid.Props.C03e"]
 SOURCES = ["recipe_grid/recipe.py", "recipe_grid/scaled_value_string.py", "recipe_grid/markdown.py", "recipe_grid/static_site/standalone_page.py"]
 RULE = ("multi-block recipes built with the real constructors (references to earlier sub recipes incl. multi-output, nested sub recipes, every amount form, "
         "numbers int/Fraction/float in names) and compiled descriptions, times factors from positive ints, Fractions and floats; non-trivial = at least "
@@ -411,7 +417,31 @@ def gen_cases(run, n):
     return cases
 
 
+def pagevalues_correspondence(run):
+    """C03e / C15d: the numbers MarkdownRecipe.render(k) and the stand-alone page show, in reading order, against shownNums / renderDoc of the model, at
+    several factors and at the page factors n / servings (harness/pagevalues_corr.py, its own process)"""
+    import os
+    import re
+    import subprocess
+    import sys
+    here = os.path.dirname(os.path.dirname(os.path.abspath(__file__)))
+    n = "60" if run.tier == "quick" and not getattr(run, "escalated", False) else "600"
+    p = subprocess.run([sys.executable, os.path.join(here, "pagevalues_corr.py"), "--seed", str(20260930 + run.seed), "--docs", n], stdout=subprocess.PIPE,
+                       stderr=subprocess.STDOUT, text=True, timeout=3000, env=dict(os.environ, PYTHONPATH=os.pathsep.join(x for x in sys.path if x)))
+    m = re.search(r"^disagreements: (\d+)", p.stdout, re.M)
+    m2 = re.search(r"scaled values compared\s+(\d+)", p.stdout)
+    if not m or not m2:
+        run.disagree("page-nums", "harness/pagevalues_corr.py", p.stdout[-800:], "n/a")
+        return
+    run.groups["numbers shown by render(k) / stand-alone page vs shownNums (reading order)"] += int(m2.group(1))
+    run.evaluations += int(m2.group(1))
+    if int(m.group(1)):
+        for line in p.stdout.split("disagreements:")[1].splitlines()[1:8]:
+            run.disagree("page-nums", line.strip()[:300], "real", "model")
+
+
 def correspondence(run):
+    pagevalues_correspondence(run)
     cases = gen_cases(run, run.budget(1500, 25000))
     rep = run.ask([sexp.tag("scale", sexp.num(k), rsexp.blocks(rs)) for rs, k, _ in cases])
     for (rs, k, _), m in zip(cases, rep):
